@@ -9,5 +9,5 @@ CONSTANTS
   PreOps <- PreTamperQuick
   SibFields <- NoFields
   TamperMax = 2
-INVARIANTS TypeOK PRedactedIffMismatch PRedactedForm PIntact PIdSigIff PSigsTogether Emit
+INVARIANTS TypeOK PRedactedIffMismatch PRedactedNoop PRedactedForm PIntact PIdSigIff PSigsTogether Emit
 CHECK_DEADLOCK FALSE
